@@ -53,9 +53,19 @@ Section Abstract.
                 | [a1; body] =>
                     match assign_pair a1 with
                     | Some (t1, e1) =>
-                        match temp_index vp t1, abstract f e1, abstract f body with
-                        | Some n1, Some x1, Some b => Some (Hoist1 n1 x1 b)
-                        | _, _, _ => None
+                        match body with
+                        | Node (K KCond _ _) [Node (K KBin _ _) [Node (Str "==") []; g; Node (K KNullLit _ _) _]; u; alt] =>
+                            (* the null guard of an optional chain: (t = e, t == null ? undefined : alt) *)
+                            match temp_index vp t1, ident_sym g, ident_sym u, abstract f e1, abstract f alt with
+                            | Some n1, Some gs, Some "undefined", Some x1, Some b =>
+                                if String.eqb gs t1 then Some (Guard n1 x1 b) else None
+                            | _, _, _, _, _ => None
+                            end
+                        | _ =>
+                            match temp_index vp t1, abstract f e1, abstract f body with
+                            | Some n1, Some x1, Some b => Some (Hoist1 n1 x1 b)
+                            | _, _, _ => None
+                            end
                         end
                     | None => None
                     end
@@ -134,6 +144,18 @@ Section Abstract.
                 else None
             | None =>
                 match callee, args with
+                | Node (K KOptChain _ _) [Node (Bln true) []; Node (K KMember _ _) [obj; Node (K KIdentName _ _) [Node (Str mname) []]]], [] =>
+                    (* o?.m() whose outer (non-optional) chain link was dissolved by the chain visitor without any other change *)
+                    match abstract f obj with Some ox => Some (OptMCall0 ox mname) | None => None end
+                | Node (K KOptChain _ _) [Node (Bln true) []; Node (K KMember _ _) [obj; Node (K KIdentName _ _) [Node (Str mname) []]]], [a] =>
+                    match plain_arg a with
+                    | Some ae =>
+                        match abstract f obj, abstract f ae with
+                        | Some ox, Some ax => Some (OptMCall1 ox mname ax)
+                        | _, _ => None
+                        end
+                    | None => None
+                    end
                 | Node (K KMember _ _) [obj; Node (K KIdentName _ _) [Node (Str mname) []]], [] =>
                     (* a method call o.m() *)
                     match abstract f obj with Some ox => Some (MCall0 ox mname) | None => None end
@@ -179,6 +201,18 @@ Section Abstract.
                     end
                 | _, _ => None
                 end
+            end
+        | Node (K KOptChain _ _) [Node (Bln false) []; Node (K KCall _ _)
+              [_; Node (K KOptChain _ _) [Node (Bln true) []; Node (K KMember _ _) [obj; Node (K KIdentName _ _) [Node (Str mname) []]]]; Node Lst args; _]] =>
+            (* an optional method call o?.m() / o?.m(a) *)
+            match abstract f obj, args with
+            | Some ox, [] => Some (OptMCall0 ox mname)
+            | Some ox, [a] =>
+                match plain_arg a with
+                | Some ae => match abstract f ae with Some ax => Some (OptMCall1 ox mname ax) | None => None end
+                | None => None
+                end
+            | _, _ => None
             end
         | Node (K KTpl _ _) [Node Lst es; Node Lst qs] =>
             (* a template literal with one or two substitutions (the pieces by their raw text) *)
@@ -239,6 +273,9 @@ Fixpoint expr_eqb (a b : expr) : bool :=
          | p :: r, q :: s => expr_eqb p q && go r s
          | _, _ => false
          end) xs ys
+  | OptMCall0 o m, OptMCall0 o' m' => expr_eqb o o' && String.eqb m m'
+  | OptMCall1 o m a, OptMCall1 o' m' a' => expr_eqb o o' && String.eqb m m' && expr_eqb a a'
+  | Guard n e b, Guard n' e' b' => Nat.eqb n n' && expr_eqb e e' && expr_eqb b b'
   | Tpl1 q0 e q1, Tpl1 p0 e' p1 => String.eqb q0 p0 && expr_eqb e e' && String.eqb q1 p1
   | Tpl2 q0 e1 q1 e2 q2, Tpl2 p0 f1 p1 f2 p2 =>
       String.eqb q0 p0 && expr_eqb e1 f1 && String.eqb q1 p1 && expr_eqb e2 f2 && String.eqb q2 p2
